@@ -213,5 +213,8 @@ def selftest(ctx):
 
 
 class SubCtx:
+    def __init__(self):
+        self.extra = {}
+
     def case(self, *a, **k):
         pass
